@@ -214,7 +214,7 @@ func (s *spec[T]) runSpecial(c *ctx) {
 // pairs whose sixth special case is copied into the evidence samples
 var sampled = map[string]bool{"conv.Int64ToString": true, "conv.Float64ToString": true, "json.EncodeStringFloat32": true, "conv.DateTimeToString": true,
 	"json.EncodeDate": true, "json.EncodeTime": true, "json.EncodeUnixMilli": true, "json.EncodeDuration": true, "json.EncodeUUID": true,
-	"json.EncodeIPv6": true, "json.EncodeMAC": true, "conv.URLToString": true}
+	"json.EncodeIP": true, "json.EncodeMAC": true, "conv.URLToString": true}
 
 func (s *spec[T]) runBulk(c *ctx, shard int) {
 	var n, det int64
